@@ -2,7 +2,9 @@
 """Re-run every kept seeded change against the checks (regression test of the machinery itself).
   breaking changes (seeded/<id>/ without a trailing q): at least one of the checks named in
       meta.json caught_by (not marked silent / not applicable) must exit 1;
-  property-preserving changes (seeded/<id>q/, <id>r/, <id>s/): all 20 quick checks must exit 0.
+  property-preserving changes (seeded/<id>q/, <id>r/, <id>s/, <id>t/): all 20 quick checks must exit 0
+      (a change whose meta.json has "expect_alarm": [ids] preserves its own property but breaks
+      those: exactly they must report it).
 Applies each patch to /repo, runs, restores /repo (never commits). Writes seeded/RESULTS.md.
 usage: run_seeded.py [id ...]   (default: all)"""
 import json, os, re, subprocess, sys
@@ -14,13 +16,14 @@ for i in ids:
     meta = json.load(open(f"{V}/seeded/{i}/meta.json"))
     if meta.get("skip"):
         rows.append((i, "-", "skipped: " + meta.get("kind", ""))); continue
-    preserving = i[-1] in "qrs"
-    if i == "C04r":
-        # preserves C04, breaks C15 (see its meta.json): C15 must report it, everything else stays silent
+    preserving = i[-1] in "qrst"
+    expect = meta.get("expect_alarm") or (["C15"] if i == "C04r" else None)
+    if expect:
+        # preserves its own property, breaks others (see its meta.json): exactly those must report it
         out = subprocess.run([f"{V}/scripts/try_mutant.sh", f"{V}/seeded/{i}/patch.diff"] + ALL, capture_output=True, text=True).stdout
         rcs = dict(re.findall(r"== (C\d\d) rc=(\d)", out))
-        ok = rcs.get("C15") == "1" and all(rcs.get(c) == "0" for c in ALL if c != "C15")
-        rows.append((i, "preserves C04 / breaks C15", "C15 reports it, all others silent" if ok else "UNEXPECTED: " + str(rcs)))
+        ok = all(rcs.get(c) == "1" for c in expect) and all(rcs.get(c) == "0" for c in ALL if c not in expect)
+        rows.append((i, f"preserves {i[:3]} / breaks {' '.join(expect)}", f"{' '.join(expect)} report(s) it, all others silent" if ok else "UNEXPECTED: " + str(rcs)))
         bad += 0 if ok else 1
         print(i, rows[-1][2], flush=True)
         continue
